@@ -24,7 +24,7 @@ register(
     "guard or removed by remove_if, (R2b) remove_if predicates are exactly is_empty(), (R2c) retain predicates under "
     "such a guard keep exactly the other files' elements, (R2d) per-file index maps are written only under the key of "
     "the file being analysed. Decides the shape of every mutation site, not sequential equivalence of whole analyses.",
-    [r2.r2a_atomic_ops, r2.r2b_remove_if, r2.r2c_retain, r2.r2d_own_file_keys],
+    [r2.r2a_atomic_ops, r2.r2b_remove_if, r2.r2c_retain, r2.r2d_own_file_keys, r2.r2f_no_whole_value_insert],
     assumptions=["DashMap entry()/get_mut()/remove_if() are atomic per key (dashmap 6.1.0 shard lock)",
                  "linearizability of whole analyses is not decided"],
 )
@@ -39,7 +39,8 @@ register(
     "are dominated by the Ok edge of the parse result (failed parse writes nothing; nothing written before parsing), "
     "(R3e) the entry's cleaning flag is false only on paths the document-synchronisation handlers cannot reach. "
     "Does not decide equality with a freshly built index for every history.",
-    [r3.r3a_clean_before_append, r3.r3b_failure_path_readonly, r3.r3e_who_skips_cleaning, r3.r3h_wrappers_always_analyse],
+    [r3.r3a_clean_before_append, r3.r3b_failure_path_readonly, r3.r3e_who_skips_cleaning, r3.r3h_wrappers_always_analyse,
+     r2.r2f_no_whole_value_insert, r3d.r3d_hit, r3d.r3d_stamp_origin, r3d.r3d_bump],
 )
 
 register(
@@ -49,7 +50,7 @@ register(
     "analysis, which could run in parallel with did_open/did_change; (R3g) the cleaning analysis is never fed text read "
     "directly from disk. Which content wins for each timing is a schedule "
     "property and is not decided.",
-    [r3.r3e_who_skips_cleaning, r3.r3e2_parallel_scan, r3.r3g_buffer_content],
+    [r3.r3e_who_skips_cleaning, r3.r3e2_parallel_scan, r3.r3g_buffer_content, r2.r2f_no_whole_value_insert],
 )
 
 register(
@@ -57,7 +58,7 @@ register(
     "Structural conditions for references being the inverse of go-to-definition: (R3c) the per-file usage map and its "
     "per-name reverse index are appended in step from one FixtureUsage, removals are paired with a by-file clear of "
     "the reverse index, no other writer exists. The equivalence itself for every (definition, usage) pair is not decided.",
-    [r3.r3c_reverse_index],
+    [r3.r3c_reverse_index, r3.r3a_clean_before_append, r5.r5c_selfref_pairing],
 )
 
 from . import r3d
@@ -133,7 +134,7 @@ register(
     "selection sites cover the same-file / conftest / plugin / third-party stages) use the same selector class per "
     "stage as the navigation cascade, (R5a) none of them selects by name alone. Agreement on every input and the "
     "hover/inlay text are not decided.",
-    [r5.r5d_siblings, _r5a_c05],
+    [r5.r5d_siblings, _r5a_c05, r5.r5c_selfref_pairing],
 )
 
 register(
@@ -142,7 +143,7 @@ register(
     "before it is returned, (R4b) first-match exits from such iterations are reviewed for uniqueness of the match, "
     "(R4c) order-sensitive selections over the per-name definition vector (registration order = scan schedule) are "
     "pinned to one file. Ties under non-total sort keys and other channels of nondeterminism are not decided.",
-    [r4.r4a_unordered, r4.r4b_unordered_pick, r5.r4c_order_sensitive],
+    [r4.r4a_unordered, r4.r4b_unordered_pick, r5.r4c_order_sensitive, r2.r2a_atomic_ops],
 )
 
 from . import r8
@@ -163,7 +164,7 @@ register(
     "configuration loader, each Diagnostic and each collector sits on the not-disabled edge of the gate with its own "
     "code; (R11a) in did_open/did_change the analysis is always followed by publishing for the same document. "
     "Equality of the last published set with the latest content for every history is not decided.",
-    [r8.r8a_diagnostic_codes, r8.r11a_analyze_then_publish, r2.r2e_canonical_read_keys],
+    [r8.r8a_diagnostic_codes, r8.r11a_analyze_then_publish, r2.r2e_canonical_read_keys, r3.r3a_clean_before_append],
 )
 
 register(
@@ -182,7 +183,7 @@ register(
     "Structural clauses of completion: (R11c) every push into the per-file view is guarded by the seen-set (one entry "
     "per name); (R8c) the textual fallback recognises every decorator module the AST recogniser accepts. Context "
     "classification per line, the offered set algebra and sort priorities are not decided.",
-    [r8.r11c_one_entry_per_name, r8.r8c_text_fallback],
+    [r8.r11c_one_entry_per_name, r8.r8c_text_fallback, r3d.r3d_hit, r3d.r3d_stamp_origin],
 )
 
 from . import r7
@@ -205,7 +206,7 @@ register(
     "of the value given to WalkDir::new) and the directory filter is depth-aware; (R10b) the walk's file-name predicate "
     "and the import-scan seed predicate use the same literal tests; (R10f) the parallel phase uses a "
     "non-short-circuiting consumer. That exactly pytest's file set is indexed for every tree is not decided.",
-    [r10.r10a_relocation, r10.r10b_filename_predicates, r10.r10f_no_short_circuit],
+    [r10.r10a_relocation, r10.r10a2_classification_relative, r10.r10b_filename_predicates, r10.r10f_no_short_circuit],
 )
 
 register(
@@ -215,7 +216,7 @@ register(
     "follows both imports and pytest_plugins; (R10g) plugin propagation does not test a stale snapshot of the map it "
     "extends; (R1d) import recursion is guarded by a visited set. Reachability closure on arbitrary graphs and venv "
     "layouts are not decided.",
-    [r10.r10c_constructors_agree, r10.r10d_mark_before_analyse, r10.r10e_walkers, r10.r10g_no_stale_snapshot, r1.r1d_recursion],
+    [r10.r10c_constructors_agree, r10.r10d_mark_before_analyse, r10.r10e_walkers, r10.r10g_no_stale_snapshot, r1.r1d_recursion, r3d.r3d_memo_context],
 )
 
 from . import r9
@@ -226,5 +227,5 @@ register(
     "str::find results) must not reach Position.character (UTF-16) unconverted, (R9b) the request's UTF-16 cursor "
     "column must not be compared with byte columns or used as a character index. Concrete token positions (off-by-one, "
     "range containment, duplicates) are value facts and are not decided.",
-    [r9.r9_bytes_to_utf16, r9.r9_utf16_vs_bytes, r3d.r3d_stamp_origin],
+    [r9.r9_bytes_to_utf16, r9.r9_utf16_vs_bytes, r3d.r3d_stamp_origin, r3.r3a_clean_before_append],
 )
